@@ -2,7 +2,11 @@
 (* Grids for the exhaustive check and for the case dump replayed into AgileRL. *)
 (* Levels: only the order of q-values matters (-2/2 stand for extreme values,  *)
 (* equal levels are ties).  Continuous numbers are in units of 1/8.            *)
+(* The grid is enumerated through quantifiers in the initial predicate (TLC    *)
+(* is very slow at normalising large sets of nested records).                  *)
 EXTENDS ActionSel, Json
+
+CONSTANT Full          \* TRUE: Discrete(4) over 5 levels; FALSE: over 3 levels
 
 Lv5 == -2..2
 Lv3 == -1..1
@@ -18,46 +22,56 @@ BGroup(n, single, rows)     == [kind |-> "bits", single |-> single, sizes |-> <<
 CGroup(lo, hi, mode, req, single, rows) == [kind |-> "cont", single |-> single, sizes |-> <<>>, lo |-> lo, hi |-> hi,
                                 mode |-> mode, req |-> req, rows |-> rows]
 
-\* ---- Discrete(n): every value vector over L, every non-empty mask, exploration off/on
-DiscRows(n, L) == {DRow(q, m, e, <<>>) : q \in Vecs(n, L), m \in Masks(n), e \in {0, 1}}
-DiscCalls(Ns, L) == UNION {{<<DGroup(<<n>>, s, <<r>>)>> : r \in DiscRows(n, L), s \in BOOLEAN} : n \in Ns}
+\* ---- Discrete(n): every value vector over the levels, every non-empty mask, exploration off/on,
+\* observation with and without batch dimension
+LevelsFor(n) == IF n <= 3 \/ Full THEN Lv5 ELSE Lv3
+InitDisc == \E n \in 1..4 : \E q \in Vecs(n, LevelsFor(n)), m \in Masks(n), e \in {0, 1}, s \in BOOLEAN :
+               InitWith(<<DGroup(<<n>>, s, <<DRow(q, m, e, <<>>)>>)>>)
 
 \* ---- MultiDiscrete([2,3]): masks keep one legal entry per component
 MDMasks == {m \in [1..5 -> {0, 1}] : (m[1] = 1 \/ m[2] = 1) /\ (m[3] = 1 \/ m[4] = 1 \/ m[5] = 1)}
-MDCalls == {<<DGroup(<<2, 3>>, FALSE, <<DRow(q, m, e, <<>>)>>)>> : q \in Vecs(5, Lv3), m \in MDMasks, e \in {0, 1}}
+InitMD == \E q \in Vecs(5, Lv3), m \in MDMasks, e \in {0, 1} :
+               InitWith(<<DGroup(<<2, 3>>, FALSE, <<DRow(q, m, e, <<>>)>>)>>)
 
 \* ---- MultiBinary(3): any mask (the all-zero action is always legal)
-MBCalls == {<<BGroup(3, FALSE, <<DRow(q, m, e, <<>>)>>)>> : q \in Vecs(3, Lv3), m \in [1..3 -> {0, 1}], e \in {0, 1}}
+InitMB == \E q \in Vecs(3, Lv3), m \in [1..3 -> {0, 1}], e \in {0, 1} :
+               InitWith(<<BGroup(3, FALSE, <<DRow(q, m, e, <<>>)>>)>>)
 
 \* ---- Box: asymmetric per-dimension bounds [-1,3] x [1/2,1] and the negative interval [-3,-1]
 LoA == <<-8, 4>>
 HiA == <<24, 8>>
 LoB == <<-24>>
 HiB == <<-8>>
+LoC == <<-16>>         \* [-2, 1/2]: MADDPG/MATD3 only accept low <= 0 < high in the first dimension
+HiC == <<4>>
 XOf(mode) == IF mode = "tanh" THEN {-8, -4, 0, 4, 8} ELSE IF mode = "sigm" THEN {0, 2, 4, 6, 8} ELSE {-8000, -8, 0, 8, 8000}
 Noise == {-800, -4, 0, 4, 800}
 Modes == {"tanh", "sigm", "none"}
-ContCalls ==
-  UNION {{<<CGroup(LoA, HiA, md, "exact", FALSE, <<CRow(x, nz, <<>>)>>)>> : x \in Vecs(2, XOf(md)), nz \in Vecs(2, Noise)} : md \in Modes}
-  \cup UNION {{<<CGroup(LoB, HiB, md, "exact", s, <<CRow(x, nz, <<>>)>>)>> : x \in Vecs(1, XOf(md)), nz \in Vecs(1, Noise), s \in BOOLEAN} : md \in Modes}
-  \cup {<<CGroup(LoA, HiA, "none", rq, FALSE, <<CRow(x, <<0, 0>>, <<>>)>>)>> : x \in Vecs(2, {-8000, 0, 8000}), rq \in {"inb", "free"}}
+InitCont ==
+  \/ \E md \in Modes : \E x \in Vecs(2, XOf(md)), nz \in Vecs(2, Noise) :
+        InitWith(<<CGroup(LoA, HiA, md, "exact", FALSE, <<CRow(x, nz, <<>>)>>)>>)
+  \/ \E md \in Modes : \E x \in Vecs(1, XOf(md)), nz \in Vecs(1, Noise), s \in BOOLEAN :
+        InitWith(<<CGroup(LoB, HiB, md, "exact", s, <<CRow(x, nz, <<>>)>>)>>)
+  \/ \E md \in Modes, rq \in {"inb", "free"} : \E x \in Vecs(2, XOf(md)) :
+        InitWith(<<CGroup(LoA, HiA, md, rq, FALSE, <<CRow(x, <<0, 0>>, <<>>)>>)>>)
 
 \* ---- batches of two rows: rows are judged independently, each under its own mask
-SmallRows(e) == {DRow(q, m, e, <<>>) : q \in Vecs(2, Lv3), m \in Masks(2)}
-BatchCalls == UNION {{<<DGroup(<<2>>, FALSE, <<r1, r2>>)>> : r1 \in SmallRows(e), r2 \in SmallRows(e)} : e \in {0, 1}}
+InitBatch == \E e \in {0, 1} : \E q1 \in Vecs(2, Lv3), q2 \in Vecs(2, Lv3), m1 \in Masks(2), m2 \in Masks(2) :
+               InitWith(<<DGroup(<<2>>, FALSE, <<DRow(q1, m1, e, <<>>), DRow(q2, m2, e, <<>>)>>)>>)
 
 \* ---- multi-agent: two agents with different action spaces, per-agent masks, environment-defined
-\* actions in some rows
-MARows1 == {DRow(q, m, e, ed) : q \in {<<0, 1>>, <<1, 1>>}, m \in Masks(2), e \in {0}, ed \in {<<>>, <<0>>, <<1>>}}
-MARows2 == {CRow(x, nz, ed) : x \in {<<-8>>, <<8>>}, nz \in {<<0>>, <<800>>}, ed \in {<<>>, <<-16>>}}
-MACalls == {<<DGroup(<<2>>, FALSE, <<r1, r2>>), CGroup(LoB, HiB, "tanh", "exact", FALSE, <<c>>)>> :
-               r1 \in MARows1, r2 \in MARows1, c \in MARows2}
-MARows3 == {DRow(q, m, 0, ed) : q \in Vecs(3, {0, 1}), m \in Masks(3), ed \in {<<>>, <<2>>}}
-MACalls2 == {<<DGroup(<<2>>, FALSE, <<r1>>), DGroup(<<3>>, FALSE, <<r3>>)>> : r1 \in MARows1, r3 \in MARows3}
+\* actions in some rows (all agents discrete or all continuous, as MADDPG/MATD3/IPPO require)
+EDs(n) == {<<>>} \cup {<<a>> : a \in 0..(n - 1)}
+InitMA ==
+  \/ \E e \in {0, 1} : \E q1 \in Vecs(2, {0, 1}), m1 \in Masks(2), e1 \in EDs(2),
+                          q3 \in Vecs(3, {0, 1}), m3 \in Masks(3), e3 \in {<<>>, <<0>>, <<2>>} :
+        InitWith(<<DGroup(<<2>>, FALSE, <<DRow(q1, m1, e, e1)>>), DGroup(<<3>>, FALSE, <<DRow(q3, m3, e, e3)>>)>>)
+  \/ \E xa \in Vecs(2, {-8, 0, 8}), na \in Vecs(2, {-800, 0, 800}), ea \in {<<>>, <<0, 6>>},
+        xb \in {<<-8>>, <<4>>}, nb \in {<<-800>>, <<0>>, <<800>>}, eb \in {<<>>, <<-8>>} :
+        InitWith(<<CGroup(LoA, HiA, "tanh", "exact", FALSE, <<CRow(xa, na, ea)>>),
+                   CGroup(LoC, HiC, "tanh", "exact", FALSE, <<CRow(xb, nb, eb)>>)>>)
 
-MCCalls  == DiscCalls(1..4, Lv5) \cup MDCalls \cup MBCalls \cup ContCalls \cup BatchCalls \cup MACalls \cup MACalls2
-MCCallsQ == DiscCalls(1..3, Lv5) \cup DiscCalls({4}, Lv3) \cup MDCalls \cup MBCalls \cup ContCalls \cup BatchCalls
-            \cup MACalls \cup MACalls2
+MCInit == InitDisc \/ InitMD \/ InitMB \/ InitCont \/ InitBatch \/ InitMA
 
 \* ---- dump of the grid (initial states), replayed into the real agents by vfw/drive/actionsel.py
 DumpInit == (TLCGet("level") = 1) => PrintT(<<"CASE", ToJson(call)>>)
